@@ -468,8 +468,14 @@ def _get_comp_cls_media(comp_cls: Type["Component"]) -> Any:
             #
             # However, the `__add__` converts our `media_cls` to Django's Media class.
             # So we also have to convert it back to `media_cls`.
+            #
+            # NOTE: We carry over the individual lists, instead of the merged result (`_js` / `_css`).
+            #       Flattening the lists at each level turns the arbitrary order between unrelated files
+            #       into a constraint, which may then contradict the order declared by another class.
             merged_media = media + base_media
-            media = media_cls(js=merged_media._js, css=merged_media._css)
+            media = media_cls()
+            media._css_lists = merged_media._css_lists
+            media._js_lists = merged_media._js_lists
 
         # Lastly, cache the merged-up Media, so we don't have to search further up the MRO the next time
         media_cache[curr_cls] = media
